@@ -272,6 +272,33 @@ def createClaim (s : St) (n : String) (resolved providerLabels : Labels) (launch
         drifted := none, deleting := false, managed := s.poolManaged, createdAt := s.now }
     pure { s with claims := s.claims ++ [c] }
 
+/-! ### The ways a NodeClaim is built from a NodePool
+
+`NewNodeClaimTemplate(nodePool)` is a function of the NodePool it is handed and must leave it alone: the provisioner
+calls it once per NodePool object of a scheduling pass, the static-capacity code calls it SEVERAL times on one in-memory
+NodePool object (`static.provisioning` once per missing replica, `StaticDrift.ComputeCommands` once per drifted
+candidate).  In the model all of them are `createClaim` on the NodePool as stored — in particular the second and every
+further NodeClaim built from one NodePool object is stamped like the first; the static-capacity controllers only act on
+NodePools whose node class the provider supports (`nodepoolutils.IsManaged`). -/
+
+inductive Via
+  | provisioner   -- NewNodeClaimTemplate on a NodePool freshly read from the API
+  | sameObject    -- NewNodeClaimTemplate once more on the NodePool object of the previous creation
+  | static        -- static.provisioning Reconcile: one template per missing replica
+  | staticDrift   -- StaticDrift.ComputeCommands: one replacement per drifted candidate
+deriving Repr, DecidableEq
+
+def Via.ofString : String → Via
+  | "same" => .sameObject
+  | "static" => .static
+  | "staticdrift" => .staticDrift
+  | _ => .provisioner
+
+/-- does this way go through a controller that skips NodePools it does not manage? -/
+def Via.managedOnly : Via → Bool
+  | .static | .staticDrift => true
+  | _ => false
+
 /-! ### Histories -/
 
 inductive Step
@@ -317,6 +344,11 @@ def step (s : St) : Step → Except NewErr (St × Bool)
   | .advance ns => pure ({ s with now := s.now + ns }, false)
   | .reconcile n => reconcileClaim s n
   | .create n resolved providerLabels launched => do pure (← createClaim s n resolved providerLabels launched, false)
+
+/-- the step of a creation by way `via` in state `s`: nothing happens (the clock advances by zero) when a static-capacity
+    controller meets a NodePool it does not manage -/
+def createStep (s : St) (via : Via) (n : String) (resolved providerLabels : Labels) (launched : Bool) : Step :=
+  if via.managedOnly && !s.poolManaged then .advance 0 else .create n resolved providerLabels launched
 
 /-- the states after every step (and the error flags) -/
 def run (s : St) : List Step → Except NewErr (List (St × Bool))
